@@ -189,7 +189,7 @@ pub fn run(ctx: &Ctx) -> EvidenceMeta {
         .collect();
       jobs.push(Box::new(move || ctx.enumerate(s, cases.into_iter(), true)));
     } else {
-      let n = (ctx.n(3000, 45_000) / s.proto.cost().min(20)).max(40);
+      let n = (ctx.n(12_000, 120_000) / s.proto.cost().min(20)).max(300);
       jobs.push(Box::new(move || ctx.prop(s, conf_case(s.proto), n)));
     }
   }
